@@ -124,14 +124,14 @@ CHECKS = {
     'C16': dict(
         level='exploration',
         batches=[dict(scenario='c16params', flavour='P', quick=12000, thorough=600000), dict(scenario='c16params', flavour='A', quick=2000, thorough=60000)],
-        rule='histories of 4-30 (thorough 4-60) ops over one CCtx, one CCtxParams object and one DCtx: set (38 compression + 7 decompression parameters x value grid {lo-1,lo,lo+1,0,default,hi-1,hi,hi+1,INT_MIN,INT_MAX,random in-bounds}), reset (3 directives), start / end frame, announce a source size (exact / wrong / 0 / unknown), a frame streamed in two calls (where an announcement in force shows: srcSize_wrong, header field, or nothing after a session reset or a completed frame), provoked error + session reset, simple-API call, apply CCtxParams; after EVERY op all 83 getters are snapshotted and the invariants evaluated; distinct = distinct plan signature; non-trivial = at least 4 ops',
+        rule='histories of 4-30 (thorough 4-60) ops over one CCtx, one CCtxParams object and one DCtx: set (38 compression + 7 decompression parameters x value grid {lo-1,lo,lo+1,0,default,hi-1,hi,hi+1,INT_MIN,INT_MAX,random in-bounds}), reset (3 directives), start / end frame, announce a source size (exact / wrong / 0 / unknown), a frame streamed in two calls (where an announcement in force shows: srcSize_wrong, header field, or nothing after a session reset or a completed frame), provoked error + session reset, simple-API call, apply CCtxParams, the structure setters ZSTD_CCtx_setCParams / setFParams / setParams with every field in range or exactly one compression field out of range (all-or-nothing on refusal, acceptance between frames, read-back); after EVERY op all 83 getters are snapshotted and the invariants evaluated; distinct = distinct plan signature; non-trivial = at least 4 ops',
         real=REAL_COMMON, stub=['parameter reference model: invariants I-a..I-d plus table rows transcribed from zstd.h (plain read-back, boolean normalisation, updatable-mid-frame list, sticky flags observed in frame headers via the independent frame walker)'],
         assumptions=['zstd.h: "Providing a value beyond bound will either clamp it, or trigger an error (depending on parameter)" - so an accepted out-of-bounds set is not a violation as long as the value read back is inside the bounds (I-a)', '0 is tolerated by I-a for every parameter (documented as default/auto for most)', 'no schedule or clock here: the family contributes refinement of an API history against an executable model'],
     ),
     'C17': dict(
         level='exploration',
         batches=[dict(scenario='c17seq', flavour='P', quick=48000, thorough=1500000), dict(scenario='c17seq', flavour='A', quick=8000, thorough=150000)],
-        rule='one sequence-level compression per run: mode in {compressSequences explicit / delimiter-free over the simulator\'s own randomised parse, the same over ZSTD_generateSequences output (raw / mergeBlockDelimiters), registered producer through compress2 / compressStream2}; every second run carries a fault: one structural corruption of the list (9 kinds), or 1-2 producer faults attached to the k-th callback (6 kinds), 1 in 8 an allocation fault; distinct = distinct plan signature; non-trivial = the frame was checked against both decoders, or a required refusal / fallback outcome was evaluated',
+        rule='one sequence-level compression per run: mode in {compressSequences explicit / delimiter-free over the simulator\'s own randomised parse, the same over ZSTD_generateSequences output (raw / mergeBlockDelimiters), registered producer through compress2 / compressStream2}; every second run carries a fault: one structural corruption of the list (9 kinds), or 1-2 producer faults attached to the k-th callback (6 kinds), 1 in 8 an allocation fault; every fourth producer group is the interleaved-fallback family (the producer fails on every 2nd-4th block with fallback on, so producer-parsed and internally parsed blocks alternate in one frame and inherit each other\'s repeat offsets; producer blocks capped at 1-3 sequences, repcode search mostly disabled, strategies 6-9); distinct = distinct plan signature; non-trivial = the frame was checked against both decoders, or a required refusal / fallback outcome was evaluated',
         real=REAL_COMMON + ['lib/compress/zstd_compress.c sequence transcription, validation, ZSTD_generateSequences, ZSTD_mergeBlockDelimiters, producer post-processing and fallback'],
         stub=['the sequence producer (caller-side list builder and registered callback) is the simulator: randomised greedy parser (minMatch 3..7, repcode-biased, length-capped, dictionary-aware), checked against a sequence-execution model before being offered as valid', 'independent decoder (educational decoder) + frame walker as conformance oracle'],
         assumptions=['a list is offered as "valid" only if the sequence-execution model accepts it: offsets <= position(+dictionary while the match ends inside the window), <= window afterwards, matchLength >= max(3, ZSTD_c_minMatch), explicit blocks <= min(128 KiB, window, maxBlockSize), at most one length >= 65536 per block (format limit of the sequence store)',
